@@ -7,7 +7,7 @@ META = {
     "level": "exploration",
     "technique": "TLA+ spec (codec/Keystore.tla: the Web3-secret-storage decrypt pipeline stage by stage over uninterpreted KDF/cipher/MAC, and the keystore directory machine) explored exhaustively with TLC; every row of the decision table replayed on keystore.EncryptKey/DecryptKey, every edge of the directory machine on a real keystore.KeyStore; random key/passphrase/corruption rounds validated by KeystoreTrace.tla",
     "text": "TLC runs the decrypt pipeline (version, id, cipher, hex fields, KDF parameters, MAC, AES-CTR) on every combination of key, encryption passphrase, tried passphrase (same, one-bit different, empty, unicode) and alteration of one field of the key file, and checks: the untouched file opens with its passphrase to the same key, id and derived address; any other passphrase is rejected whatever was altered; the address always comes from the decrypted key; everything the MAC or the KDF input covers is detected, the iv is not (the definition's MAC does not cover it: a different key comes out), address and id are not bound. Each row is realised on the real code with light scrypt and fresh keys. The keystore directory machine (create, change passphrase, export, import, delete; wrong passphrases and duplicate imports fail and change nothing) is explored exhaustively for 2 keys x 2 passphrases and every edge executed on a real KeyStore, after which every stored file must open with exactly the passphrase the specification says. This is a decision-table exploration with uninterpreted cryptography, not a proof about scrypt/AES/Keccak: level exploration.",
-    "note": "scrypt/AES/Keccak are uninterpreted (injective) functions; light scrypt parameters (N=2,P=1). Not covered: files with missing JSON members or non-integer KDF parameters (DecryptKey panics on a missing kdfparams.salt/n/r/p/dklen - outside the property, recorded in NOTES.md), dklen other than 32, version-1 and pbkdf2 files, presale wallets, the account cache/file watcher timing.",
+    "note": "scrypt/AES/Keccak are uninterpreted (injective) functions (true KDFs are not injective on passphrases that differ only by trailing NUL bytes or, beyond 64 bytes, from their own SHA-256: HMAC key padding - such pairs are not tried); light scrypt parameters (N=2,P=1). Not covered: files with missing JSON members or non-integer KDF parameters (DecryptKey panics on a missing kdfparams.salt/n/r/p/dklen - outside the property, recorded in NOTES.md), dklen other than 32, version-1 and pbkdf2 files, presale wallets, the account cache/file watcher timing.",
     "design_ref": "3.1 C52",
 }
 
